@@ -46,6 +46,8 @@ SIM_CHECKS = [
     ("C05", "model_checking", sim_text("Decides fragment numbering/length/reassembly for fragment sizes 8..65000 at payload sizes k*f-4, k*f, k*f+4 under fragment-level faults."), "5.1, 6 C05"),
     ("C16", "model_checking", "Trace_Discovery.tla states the matched set of every endpoint as a function of the live, compatible (Compat rules), reachable, non-ignored remote endpoints and derives current_count/total_count/change fields from the history of match events; randomized histories of remote endpoint creation, QoS update (compatible and incompatible), deletion, participant deletion and silent departure interleaved with status reads are executed by real participants in the deterministic simulation and every observed status is compared by TLC with the specification's value; emissions to departed readers are flagged.", "5.3, 6 C16"),
     ("C17", "model_checking", "Trace_Discovery.tla gives, for every observation of get_discovered_participants, the participants that must and must not be known: same domain id and tag, not ignored, lease window [last communication + lease, + one worker period] for silent participants, rediscovery after heal. Scenario families (isolation by domain/tag, lease expiry with virtual time, rediscovery, ignore, announcement loss) run on real participants in the simulation and are validated event by event by TLC.", "5.3, 6 C17"),
+    ("C30", "model_checking", "Trace_Worker.tla computes, from the recorded write / reception times, the number of full deadline periods that elapsed per instance (Missed) and accepts an observed offered/requested deadline-missed total_count only inside [count one worker period earlier, count now]; every listener callback must carry total_count = k and total_count_change = 1 and be justified by a missed period; at the end every missed period must have been signalled. Timing patterns (gaps of 0.3..3.7 periods, 1-2 instances, deadlines 20 ms..1 s, simultaneous writes) run on the real worker with the virtual clock.", "5.5, 6 C30"),
+    ("C31", "model_checking", "Every duration the worker passes to Timer::delay is recorded by the simulated timer and Trace_Worker.tla requires 0 <= d <= 50 ms on each of them, in scenario families that make each time_until_* term the minimum, including already overdue ones (deadlines shorter than the worker period, lifespans, blocked writes, lease expiry, announcements); Timeout of a blocked write within max_blocking_time + one period is judged by Trace_Rtps (C27 family).", "5.5, 6 C31"),
     ("C27", "model_checking", sim_text("Decides that a reliable KEEP_LAST write evicts only acknowledged samples, blocks otherwise and times out within max_blocking_time + one worker period."), "5.1, 6 C27"),
     ("C29", "model_checking", sim_text("Decides that no DATA/DATA_FRAG of a sample is emitted after source timestamp + lifespan (first transmission, repair, history)."), "5.1, 6 C29"),
 ]
